@@ -56,6 +56,18 @@ mixed bd(string kind) {
   case "allocbuf": for (i = 1; i < 20; i++) b = allocate_buffer(1 << i); return b;
   case "buf+": for (i = 0; i < 20; i++) b = b + b; return b;
   case "copy": for (i = 0; i < 20; i++) a = copy(a) + copy(a); return a;
+  case "strrange": for (i = 0; i < 22; i++) s[0..0] = s; return s;
+  case "arrrange": for (i = 0; i < 22; i++) a[0..0] = a; return a;
+  case "bufrange": for (i = 0; i < 22; i++) b[0..0] = b; return b;
+  case "gstrrange": gs = "abcdefgh"; for (i = 0; i < 22; i++) gs[<1..] = gs; return gs;
+  case "replace5": for (i = 0; i < 22; i++) s = replace_string(s, "a", "aaa", 0, 1000000); return s;
+  case "replace1": for (i = 0; i < 22; i++) s = replace_string(s, "abcdefgh", s + s, 1); return s;
+  case "spad": for (i = 1; i < 22; i++) s = sprintf("%" + (1 << i) + "s", "x"); return s;
+  case "spadr": for (i = 1; i < 22; i++) s = sprintf("%-" + (1 << i) + "s|", "x"); return s;
+  case "scol": for (i = 1; i < 22; i++) s = sprintf("%-=" + (1 << i) + "s", repeat_string("ab ", 1 << i)); return s;
+  case "imparr": for (i = 1; i < 22; i++) s = implode(explode(repeat_string("ab ", 1 << i), " "), ",,,,"); return s;
+  case "strslice": for (i = 0; i < 22; i++) s = s[0..] + s[1..] + "x"; return s;
+  case "mapmul": for (i = 0; i < 300000; i++) { m[i] = i; if (!(i % 4096)) m = m + m; } return m;
   case "keys": for (i = 0; i < 300000; i++) { m[i] = i; if (!(i % 64)) a = keys(m) + values(m); } return a;
   }
   return 0;
